@@ -15,7 +15,7 @@ RULE = ("cases = seeded gRPC service configs (several entries, entries naming se
         "(jitter pinned to its upper bound) and the outcome with a reference computed from the entry; distinct = distinct (entry "
         "kind, fault sequence shape, client kind, override) that held")
 ASSUMPTIONS = ["google.api_core.retry's clock and random are replaced by a virtual clock / upper-bound jitter",
-               "REST is not judged (HTTP status mapping is api-core's)", "maxAttempts is not part of the statement"]
+               "over REST only the deadline is judged (the timeout handed to the HTTP session on a clean call); retries over REST are not (HTTP status mapping is api-core's)", "maxAttempts is not part of the statement"]
 CASE_TIMEOUT = 600
 PARALLEL = 12
 
@@ -24,7 +24,7 @@ def floors(tier):
     k = 1 if tier == "quick" else 7
     return {"calls_judged": 3000 * k, "single_code_injections": 2000 * k, "retried_calls": 300 * k, "sleeps_compared": 600 * k,
             "deadlines_compared": 2500 * k, "retry_error_by_deadline": 20 * k, "unnamed_method_calls": 800 * k, "override_calls": 200 * k,
-            "client:aio": 1200 * k, "retry_only_entry_failing_for_minutes": 4 * k, "second_page_fault_calls": 40 * k}
+            "client:aio": 1200 * k, "retry_only_entry_failing_for_minutes": 4 * k, "second_page_fault_calls": 40 * k, "rest_calls_judged": 150 * k, "rest_deadlines_compared": 40 * k}
 
 
 def plan(seed, tier):
@@ -146,6 +146,16 @@ def run_case(case):
             for client in ("grpc", "aio"):
                 calls.append({"service": s.name, "full_service": fs, "rpc": m.name, "method": rdm.py_method(m.name), "client": client,
                               "seq": seq, "shape": "override", "override": ov, "req_type": m.input_type.lstrip(".")})
+        # REST: the deadline of a call is the `timeout` the stub hands to the HTTP session (default from the entry, or the override)
+        rq = model.new(m.input_type)
+        if m.name == "List":
+            rq.parent = "shelves/s1"
+        else:
+            rq.name = ("alpha/" if s.name == "Alpha" else "beta/") + rng.choice(["a1", "b2"])
+        for ov in ({}, {"timeout": rng.choice([37.5, 0.75, 410.0])}):
+            calls.append({"service": s.name, "full_service": fs, "rpc": m.name, "method": rdm.py_method(m.name), "client": "rest",
+                          "seq": [], "shape": "rest-" + api.info["http_shape"].get(f"{s.name}.{m.name}", "?"), "override": ov,
+                          "req_type": m.input_type.lstrip("."), "request": rdm.b64(rq.SerializeToString())})
         if m.name == "List" and R:
             # the second page of a listing fails: default retry, explicit retry=None and a custom retry each decide that fetch
             p1 = model.new(m.output_type)
@@ -203,6 +213,21 @@ def run_case(case):
 
         if r.get("harness_error"):
             bad("client-raised-unexpectedly", r["harness_error"])
+        elif call["client"] == "rest":
+            bump("rest_calls_judged")
+            if not r["outcome"].get("ok") or len(r["session_timeouts"]) != 1:
+                bad("rest-outcome", f"outcome {r['outcome']}, {len(r['session_timeouts'])} HTTP requests")
+            else:
+                t = r["session_timeouts"][0]
+                if t == "absent":
+                    bad("rest-call-without-timeout", "the stub did not hand a timeout to the HTTP session (the session's own default applies)")
+                elif per_attempt is None:
+                    if t is not None:
+                        bad("rest-deadline", f"timeout {t} on a call without default timeout")
+                elif t is None or not (per_attempt - 3.0 - r.get("stall_s", 0.0) <= t <= per_attempt + 1e-6):
+                    bad("rest-deadline", f"timeout {t} handed to the session, reference {per_attempt}")
+                else:
+                    bump("rest_deadlines_compared")
         else:
             if r["attempts"] != att:
                 bad("attempt-count", f"{r['attempts']} attempts, reference {att}")
@@ -290,6 +315,41 @@ def in_runner(script):
     def outcome_of(e):
         info = rt.exc_info(e)
         return {"type": info["type"], "code": info["code"], "msg": info["msg"][:120]}
+
+    # REST: record the timeout argument of every request of the authorised session (absent is not the same as None)
+    if any(c["client"] == "rest" for c in script["calls"]):
+        import time as _time
+        import google.auth.transport.requests as gatr
+        http = rt.HttpServer()
+        seen = []
+        orig = gatr.AuthorizedSession.request
+
+        def recording_request(self, method, url, *a, **kw):
+            seen.append(kw["timeout"] if "timeout" in kw else "absent")
+            return orig(self, method, url, *a, **kw)
+
+        gatr.AuthorizedSession.request = recording_request
+        rcl = {}
+        for i, call in enumerate(script["calls"]):
+            if call["client"] != "rest":
+                continue
+            svc = call["service"]
+            if svc not in rcl:
+                rcl[svc] = lib.rest_client(svc, http.host)
+            del seen[:]
+            o = {}
+            t0 = _time.monotonic()
+            try:
+                ret = getattr(rcl[svc], call["method"])(request=lib.mk(call["req_type"], rt.unb64(call["request"])), **kwargs_of(call))
+                if call["rpc"] == "List":
+                    list(ret)
+                o["outcome"] = {"ok": True}
+            except Exception as e:  # noqa
+                o["outcome"] = outcome_of(e)
+            o["session_timeouts"] = [x if (x is None or isinstance(x, (int, float, str))) else repr(x) for x in seen]
+            o["stall_s"] = _time.monotonic() - t0
+            results[i] = o
+        gatr.AuthorizedSession.request = orig
 
     clients = {}
     for i, call in enumerate(script["calls"]):
